@@ -966,6 +966,7 @@ func runC07(o *Out) {
 	debug.SetPanicOnFault(true)
 	c07ArrayCases(o)
 	slicePoolProbe(o, "C07")
+	c07LayoutCases(o)
 	n := 0
 	c07Generate(o, func(c *c07Case) {
 		n++
